@@ -319,12 +319,35 @@ Definition setup_gap_b (x : state) : bool :=
 Definition nodep_b (x : state) : bool :=
   forallb (fun ts => match t_occ ts with ODep _ _ _ => false | _ => true end) (s_trans x).
 
+(* the TimeDependency invariant of SMP/ProvBatch.v (DEPI), as a boolean: a dependency stored in an AGV's occupied_till is
+   that AGV's own -> WAITING / -> TRANSIT transition for its own claim, the AGV waits, and the claimed job lies in the
+   (ordered) machine post-buffer BEHIND the blocking job *)
+Definition before_b (a b : nat) (l : list nat) : bool :=
+  match index_of a l, index_of b l with Some pa, Some pb => Nat.ltb pa pb | _, _ => false end.
+Definition rel_ok_b (ty : btype) (l : list nat) (k j : nat) : bool :=
+  match ty with Lifo => before_b j k l | Flex => false | _ => before_b k j l end.
+Definition wkind_b (tr : transition) : bool :=
+  match tr_new tr with NT TWaiting => true | NT TTransit => true | _ => false end.
+Definition depi_b (x : state) : bool :=
+  forallb (fun p => match t_occ (snd p) with
+     | ODep b k d =>
+         tstate_eqb (t_st (snd p)) TWaiting &&
+         match t_job (snd p), b with
+         | Some j, BPost m =>
+             match nth_error (s_machs x) m, nth_error (i_machs i) m with
+             | Some ms, Some mc =>
+                 comp_eqb (tr_comp d) (CT (fst p)) && opt_nat_eqb (tr_job d) (Some j) && wkind_b d
+                 && rel_ok_b (bc_type (mc_post mc)) (b_store (m_post ms)) k j
+             | _, _ => false end
+         | _, _ => false end
+     | _ => true end) (indexed O (s_trans x)).
+
 (* the clause vector the monitors print, in this order *)
 Definition clause_vector (x : state) : list bool :=
   [ placement_b x; loc_b x; mach_hold_b x; agv_hold_b x; claims_b x; capacity_b x; flags_b x;
     feasible_b x; no_overdue_b x; past_b x; busy_op_b x; proc_inner_b x; output_done_b x;
-    outages_b x; outage_nonneg_b x; agv_phase_b x; idle_unclaimed_b x; sto_ok_b x; fresh_b x; agv_load_b x; fresh2_b x; nodep_b x; durations_b x; travel_gap_b x; setup_gap_b x ].
+    outages_b x; outage_nonneg_b x; agv_phase_b x; idle_unclaimed_b x; sto_ok_b x; fresh_b x; agv_load_b x; fresh2_b x; nodep_b x; durations_b x; travel_gap_b x; setup_gap_b x; depi_b x ].
 
 End WithInst.
 
-Definition clause_names : list nat := seq0 25.
+Definition clause_names : list nat := seq0 26.
